@@ -383,8 +383,11 @@ where
     }
 
     /// Return the threshold associated with this commitment.
-    pub(crate) fn min_signers(&self) -> u16 {
-        self.0.len() as u16
+    ///
+    /// Fails if the commitment has more coefficients than a threshold can
+    /// express, instead of truncating the count.
+    pub(crate) fn min_signers(&self) -> Result<u16, Error<C>> {
+        u16::try_from(self.0.len()).map_err(|_| Error::IncorrectNumberOfCommitments)
     }
 }
 
@@ -712,7 +715,7 @@ where
             signing_share: secret_share.signing_share,
             verifying_share,
             verifying_key,
-            min_signers: secret_share.commitment.min_signers(),
+            min_signers: secret_share.commitment.min_signers()?,
         })
     }
 }
@@ -791,7 +794,7 @@ where
         Ok(PublicKeyPackage::new(
             verifying_keys,
             VerifyingKey::from_commitment(commitment)?,
-            Some(commitment.min_signers()),
+            Some(commitment.min_signers()?),
         ))
     }
 
